@@ -85,11 +85,16 @@ fn c04_q_value_amount() {
 #[kani::stub(std::fmt::format, crate::stubs::fmt_format_stub)]
 fn c04_q_mint_amount() {
     let amt: [u8; 9] = kani::any();
-    let v = value_buf(amt);
-    let mut buf = [0u8; 43];
+    let mut buf = [0x11u8; 43];
+    buf[0] = 0xa1;
+    buf[1] = 0x58;
+    buf[2] = 0x1c;
+    buf[31] = 0xa1;
+    buf[32] = 0x41;
+    buf[33] = 0x61;
     let mut i = 0;
-    while i < 43 {
-        buf[i] = v[i + 2];
+    while i < 9 {
+        buf[34 + i] = amt[i];
         i += 1;
     }
     let r = minicbor::decode::<Mint>(&buf[..]);
